@@ -144,6 +144,25 @@ def decay_cases(ctx, rnd, n):
                 t[0], t[1], t[2], P[0], P[1], P[2], "true" if brk else "false", l_opt, ls_opt,
                 ";".join("(%d,%d)" % p for p in out))
         cases.append(("dec%d" % k, stmt, "vm_compute; reflexivity", {"t": t, "P": P, "brk": brk, "kw": kw, "out": out}))
+        # C-parity family on decay OBJECTS: the same spins, parities and p_break with the C-parity request absent / +1 / -1, one
+        # after the other in this process (whatever is shared between decay objects must not ignore the request)
+        for ci, cval in enumerate((None, 1, -1) if k % 2 == 0 else (-1, None, 1)):
+            try:
+                ac = get_particle("Ac%d_%d" % (k, ci), J=J(t[0]), P=P[0], **({} if cval is None else {"C": cval}))
+                bc = get_particle("Bc%d_%d" % (k, ci), J=J(t[1]), P=P[1]); cc = get_particle("Cc%d_%d" % (k, ci), J=J(t[2]), P=P[2])
+                dc = get_decay(ac, [bc, cc], p_break=brk, **({} if cval is None else {"c_break": False}))
+                outc = [(int(l), twoj(s)) for l, s in dc.get_ls_list()]
+            except Exception:
+                outc = None
+                ctx.count("decay_init_raises")
+            ca = "None" if cval is None else "(Some (%d))" % cval
+            if outc is None:
+                stmtc = "ls_list %d %d %d (Some (%d)) (Some (%d)) (Some (%d)) %s %s = []" % (t[0], t[1], t[2], P[0], P[1], P[2], "true" if brk else "false", ca)
+            else:
+                stmtc = "pairs_eqb (ls_list %d %d %d (Some (%d)) (Some (%d)) (Some (%d)) %s %s) [%s] = true" % (
+                    t[0], t[1], t[2], P[0], P[1], P[2], "true" if brk else "false", ca, ";".join("(%d,%d)" % p for p in outc))
+            ctx.count("decay_c_parity_request:%s" % ("none" if cval is None else cval))
+            cases.append(("decc%d_%d" % (k, ci), stmtc, "vm_compute; reflexivity", {"t": t, "P": P, "brk": brk, "C": cval, "c_break": cval is None, "out": outc}))
     return cases
 
 
@@ -235,7 +254,7 @@ def run(ctx):
     res = common.coq_cases(ctx, "ls_decay", HEADER, [c[:3] for c in dc], per_file=200)
     for (cid, stmt, tac, m) in dc:
         if m["out"]:
-            ctx.distinct.add(("dec", tuple(m["t"]), tuple(m["P"]), m["brk"], str(m["kw"])))
+            ctx.distinct.add(("dec", tuple(m["t"]), tuple(m["P"]), m["brk"], str(m.get("kw", m.get("C")))))
         if res[cid] != "OK":
             ctx.fail("get_ls_list", cid, "HelicityDecay.get_ls_list differs from model (%s)" % res[cid], inp=m, site="HelicityDecay.get_ls_list", fingerprint="decay",
                      failing_input={"call": "get_decay(A,[B,C],...).get_ls_list()", **{k: str(v) for k, v in m.items()}})
